@@ -101,7 +101,7 @@ def _run(cmd, cwd=None, timeout=3600, env=None):
 def lean_sources_hash() -> str:
     h = hashlib.sha256()
     files = sorted(
-        p for p in LEAN.rglob("*.lean") if ".lake" not in p.parts
+        p for p in LEAN.rglob("*.lean") if ".lake" not in p.parts and "wip" not in p.parts
     ) + [LEAN / "lakefile.toml"]
     for p in files:
         h.update(str(p.relative_to(LEAN)).encode())
@@ -133,7 +133,7 @@ def strip_comments(src: str) -> str:
 def forbidden_token_hits() -> list[str]:
     hits = []
     for p in sorted(LEAN.rglob("*.lean")):
-        if ".lake" in p.parts:
+        if ".lake" in p.parts or "wip" in p.parts:
             continue
         body = strip_comments(p.read_text())
         for t in FORBIDDEN_TOKENS:
